@@ -5,7 +5,7 @@ CFG = dict(
                "the keyed merge conserves every entry-level sum (weights additive per stack identity); report_additive (combined = sum of the "
                "individual reports, mod 2^64); Scale(-1) negates every entry exactly; merge of source with negated base = source - base per entry; "
                "a profile minus itself has every entry 0; CompatibilizeSampleTypes keeps all samples and carries columns by name; integer unit ratios "
-               "multiply exactly; ScaleN never loses a non-zero value outside class F4 (refuted inside: scale_n_keep_refuted). Model tied to "
+               "multiply exactly; a scaled column's total becomes ratio*total +- n/2 (the -normalize clause, partial); ScaleN never loses a non-zero value outside class F4 (refuted inside: scale_n_keep_refuted). Model tied to "
                "fetchProfiles + generateRawReport/TextItems by ~900 (quick) / ~15k (thorough) differential tuples, each also judged by the "
                "independent checker spec_ok (linearity per entry, finest unit, base total, -proto round trip, self-diff emptiness).",
     level_note="partial: the end-to-end composition through CompatibilizeSampleTypes/ScaleProfiles (full_statement_fetch_linear), the -normalize "
